@@ -189,10 +189,10 @@ Qed.
 (* Task.finish *)
 Lemma finish_after_head t ch : t_wrote_header t = true ->
   exists ch', task_finish cap lower c r None (t, ch) = ((t, ch'), Ok tt)
-    /\ chan_wire ch' = chan_wire ch ++ (if t_chunked t then chunk_terminator else []).
+    /\ chan_wire ch' = chan_wire ch ++ (if t_chunked t && negb (r_head r) then chunk_terminator else []).
 Proof.
   intro Hw. unfold task_finish. cbn [fst]. rewrite Hw. cbn [negb].
-  destruct (t_chunked t).
+  destruct (t_chunked t && negb (r_head r)).
   - unfold chunk_terminator. rewrite write_soon_connected. eexists. split; [reflexivity|].
     destruct ch as [ws n]. apply chan_wire_push.
   - exists ch. rewrite app_nil_r. auto.
@@ -202,7 +202,7 @@ Lemma finish_fresh t ch s' o : t_complete t = true -> t_wrote_header t = false -
   task_finish cap lower c r None (t, ch) = (s', o) -> o = Ok tt ->
   exists tp head, build_response_header cap lower c r t = (tp, Ok head)
     /\ fst s' = set_wrote true tp
-    /\ chan_wire (snd s') = chan_wire ch ++ head ++ (if t_chunked tp then chunk_terminator else []).
+    /\ chan_wire (snd s') = chan_wire ch ++ head ++ (if t_chunked tp && negb (r_head r) then chunk_terminator else []).
 Proof.
   intros Hc Hw H Ho. unfold task_finish in H. cbn [fst] in H. rewrite Hw in H. cbn [negb] in H.
   unfold task_write in H. cbn [fst] in H. rewrite Hc in H. cbn [negb] in H.
@@ -213,7 +213,7 @@ Proof.
   destruct Hh as (-> & Ht & Hwire). destruct s1 as [t1 ch1]. cbn [fst snd write_body] in *. subst t1.
   cbn [t_chunked set_wrote] in H.
   exists tp, head. split; auto.
-  destruct (t_chunked tp).
+  destruct (t_chunked tp && negb (r_head r)).
   - unfold chunk_terminator in *. rewrite write_soon_connected in H. inversion H; subst. cbn [fst snd].
     split; auto. destruct ch1 as [ws n]. rewrite chan_wire_push. unfold chan_wire in Hwire at 1. cbn [ch_writes] in Hwire.
     cbn [ch_writes]. rewrite Hwire, <- app_assoc. reflexivity.
